@@ -72,6 +72,7 @@ class OptimResults(object):
         self.EXIT_FALSE_SUCCESS_WARNING = EXIT_FALSE_SUCCESS_WARNING
         self.EXIT_TR_INCREASE_WARNING = EXIT_TR_INCREASE_WARNING
         self.EXIT_EVAL_ERROR = EXIT_EVAL_ERROR
+        self.EXIT_AUTO_DETECT_RESTART_WARNING = EXIT_AUTO_DETECT_RESTART_WARNING
 
     def __str__(self):
         # Result of calling print(soln)
